@@ -248,6 +248,83 @@ Definition fir_run (f : lfilter) (zero : T) (xs : list T) : option (list T) :=
   | _ => None
   end.
 
+(* ------------------------------------------- histories on one object *)
+(* Poly.__setitem__(power, coeff): a coefficient equal to zero deletes the item, any other
+   value is stored (the list stays in ascending power order, the order terms() yields) *)
+Fixpoint poly_set (p : poly) (k : Z) (v : T) : poly :=
+  match p with
+  | [] => [(k, v)]
+  | (k', c) :: r => if (k =? k')%Z then (k, v) :: r
+                    else if (k <? k')%Z then (k, v) :: (k', c) :: r
+                    else (k', c) :: poly_set r k v
+  end.
+Definition poly_setitem (p : poly) (k : Z) (v : T) : poly :=
+  if ceqb F v #0 then filter (fun kc => negb (fst kc =? k)%Z) p else poly_set p k v.
+
+(* operations on ONE LinearFilter object: calls (which leave the object unchanged) and
+   in-place edits of its polynomials between the calls *)
+Inductive hop :=
+| HRun (len : nat)              (* list(filt(e^{jwn}, n < len)) *)
+| HImp (L : nat)                (* ir = list(filt(impulse of length L)); dft(ir, [w], normalize=False) *)
+| HFr                           (* filt.freq_response(w) *)
+| HSetNum (k : Z) (v : T)       (* filt.numpoly[k] = v *)
+| HSetDen (k : Z) (v : T)       (* filt.denpoly[k] = v *)
+| HNewNum (l : list T).         (* filt.numpoly = Poly(l) *)
+Inductive hobs :=
+| ORun (ys : option (list T))
+| OImp (ir : option (list T)) (d : option (list T))
+| OFr (r : resp T)
+| OEdit.
+
+Definition hop_edit (f : lfilter) (o : hop) : lfilter :=
+  match o with
+  | HSetNum k v => (poly_setitem (fst f) k v, snd f)
+  | HSetDen k v => (fst f, poly_setitem (snd f) k v)
+  | HNewNum l => (poly_of_list l, snd f)
+  | _ => f
+  end.
+(* every call is the per-call model on the CURRENT contents of the object *)
+Definition hop_obs (f : lfilter) (w : W) (xs : nat -> list T) (imp : nat -> list T) (o : hop) : hobs :=
+  match o with
+  | HRun len => ORun (fir_run f #0 (xs len))
+  | HImp L => let ir := fir_run f #0 (imp L) in
+              OImp ir (match ir with Some r => dft r [w] false | None => None end)
+  | HFr => OFr (lf_fr f w)
+  | _ => OEdit
+  end.
+Fixpoint hist_run (f : lfilter) (w : W) (xs imp : nat -> list T) (ops : list hop) : list hobs :=
+  match ops with
+  | [] => []
+  | o :: r => hop_obs f w xs imp o :: hist_run (hop_edit f o) w xs imp r
+  end.
+
+(* operations on ONE CascadeFilter / ParallelFilter object (a Python list) *)
+Inductive lop :=
+| LFr                            (* obj.freq_response(w) *)
+| LSet (i : nat) (t : ftree)     (* obj[i] = t *)
+| LAppend (t : ftree)            (* obj.append(t) *)
+| LPop.                          (* obj.pop() *)
+Inductive lobs := OLFr (r : option (resp T)) | OLEdit | OLIndexError.
+
+Fixpoint list_set {A : Type} (l : list A) (i : nat) (x : A) : option (list A) :=
+  match l, i with
+  | [], _ => None
+  | _ :: r, O => Some (x :: r)
+  | y :: r, S j => match list_set r j x with Some r' => Some (y :: r') | None => None end
+  end.
+Definition lop_step (cas : bool) (l : list ftree) (w : W) (o : lop) : list ftree * lobs :=
+  match o with
+  | LFr => (l, OLFr (tree_fr (if cas then TCas l else TPar l) w))
+  | LSet i t => match list_set l i t with Some l' => (l', OLEdit) | None => (l, OLIndexError) end
+  | LAppend t => (l ++ [t], OLEdit)
+  | LPop => match l with [] => (l, OLIndexError) | _ => (removelast l, OLEdit) end
+  end.
+Fixpoint lhist_run (cas : bool) (l : list ftree) (w : W) (ops : list lop) : list lobs :=
+  match ops with
+  | [] => []
+  | o :: r => let (l', ob) := lop_step cas l w o in ob :: lhist_run cas l' w r
+  end.
+
 End Model.
 
 (* ---------------------------------------------------------- elementwise *)
